@@ -84,14 +84,22 @@ def gen_cases(tier, seed):
         a = [float(rng.uniform(-2e3, 2e3)), float(rng.uniform(-2e3, 2e3)), float(z0)]
         b = [a[0] + float(rho * np.cos(ph)), a[1] + float(rho * np.sin(ph)), float(z1)]
         ints = False
-        if fam in ("uniform", "layered-uniform") and rng.random() < 0.3 and zmin < -20:
+        cls_ = fam
+        if rng.random() < 0.06 and -1.0 > z0 > zmin + 1.0:
+            # nearly coincident endpoints (0.1 micrometre ... 5 mm apart, any orientation): below 1e-5 of the coordinates themselves
+            u_ = rng.normal(size=3)
+            u_ /= np.linalg.norm(u_)
+            sep_ = float(10 ** rng.uniform(-7, -2.3))
+            b = [a[0] + sep_ * u_[0], a[1] + sep_ * u_[1], a[2] + sep_ * u_[2]]
+            cls_ = fam + ":nearly-coincident"
+        elif fam in ("uniform", "layered-uniform") and rng.random() < 0.3 and zmin < -20:
             # endpoints given as whole numbers in Python ints (lists of int): same points, another representation
             ints = True
             a = [int(round(a[0])), int(round(a[1])), int(min(-1, max(np.ceil(zmin) + 1, round(a[2]))))]
             b = [int(round(b[0])), int(round(b[1])), int(min(-1, max(np.ceil(zmin) + 1, round(b[2]))))]
             if a == b:
                 b[0] += 7
-        out.append(dict({"cls": fam, "family": fam, "ice": ice, "from": a, "to": b, "shift": [float(rng.uniform(-1e4, 1e4)), float(rng.uniform(-1e4, 1e4))],
+        out.append(dict({"cls": cls_, "family": fam, "ice": ice, "from": a, "to": b, "shift": [float(rng.uniform(-1e4, 1e4)), float(rng.uniform(-1e4, 1e4))],
                          "angle": float(rng.uniform(0, 2 * np.pi)), "int_endpoints": ints}, **extra))
     return out
 
@@ -234,6 +242,40 @@ def run_case(case):
         except Exception as e:       # noqa: BLE001
             nudged = "nudge failed: " + type(e).__name__
         geo["n_with_receiver_moved_by_0.1_micrometre"] = nudged
+    # ---- mechanism observable (kf_layered_noise_arc_leg): a multi-leg layered solution whose end leg is an arc inside a gradient
+    # layer that starts and ends at the same depth (endpoint on an inner boundary).  For a launch at elevation phi << 1 from the
+    # horizontal the arc's horizontal extent is 2 n phi / |dn/dz| to first order (valid while its height n phi^2 / (2 |dn/dz|) is
+    # small against the profile's scale 1/a).  A reported extent off by more than a factor two from that is not an arc of the
+    # profile at all.  Such solutions are reported under their own clause and set aside, the remaining ones are compared strictly.
+    def noise_arc_leg(p):
+        legs_ = list(getattr(p, "paths", []))
+        if len(legs_) < 2:
+            return None
+        for sp, dvec in ((legs_[0], p.emitted_direction), (legs_[-1], p.received_direction)):
+            f_, t_ = np.asarray(sp.from_point, float), np.asarray(sp.to_point, float)
+            li = getattr(sp, "ice", None)
+            if hasattr(sp, "_points") or f_[2] != t_[2] or not all(hasattr(li, x_) for x_ in ("k", "a", "index")):
+                continue
+            phi = abs(float(np.asarray(dvec, float)[2]))
+            n_ = float(li.index(float(f_[2])))
+            dn_ = abs(float(li.k) * float(li.a) * float(np.exp(float(li.a) * float(f_[2]))))
+            if phi > 1e-3 or dn_ <= 0 or float(li.a) * n_ * phi * phi / (2 * dn_) > 0.1:
+                continue
+            true_extent = 2 * n_ * phi / dn_
+            reported = float(np.hypot(*(t_ - f_)[:2]))
+            if not (0.5 * true_extent <= reported <= 2 * true_extent):
+                return {"elevation_rad": phi, "reported_extent_m": reported, "first_order_extent_m": float(true_extent), "depth": float(f_[2]), "L": float(p.path_length)}
+        return None
+
+    if str(fam).startswith("layered"):
+        es_ = [{i: o for i, o in ((i, noise_arc_leg(p)) for i, p in enumerate(ss_)) if o} for ss_ in (s1, s2, s3)]
+        if any(es_):
+            v.check(False, "the end leg of a layered solution is an arc of its layer's profile",
+                    forward=list(es_[0].values()), swapped=list(es_[1].values()), moved=list(es_[2].values()), arc_extent_off_by_more_than_a_factor_two=True, **geo)
+            s1 = [p for i, p in enumerate(s1) if i not in es_[0]]
+            s2 = [p for i, p in enumerate(s2) if i not in es_[1]]
+            s3 = [p for i, p in enumerate(s3) if i not in es_[2]]
+            geo["noise_arc_solutions_set_aside"] = [len(e_) for e_ in es_]
     ok = v.check(len(s1) == len(s2) == len(s3), "swapping / moving the endpoints keeps the number of solutions", n=[len(s1), len(s2), len(s3)], n_with_20x_finer_angle_scan=fine, **geo)
     sample = dict(geo, n_solutions=len(s1))
     if not ok or not s1:
@@ -273,12 +315,22 @@ def run_case(case):
     # layered tracing through exponential sub-layers solves for the launch angle through the sub-layers' closed forms:
     # measured agreement 1.5e-6 (thorough, 1e4 cases); everything else agrees to 1e-9 and is held to 1e-7
     gtol = 1e-5 if fam == "layered-exp" else 1e-7
+    # conditioning of the input itself: the separation of the endpoints is known to eps * |coordinates| only, and the moved copy
+    # carries other coordinates (relevant for endpoints micrometres apart; 3e-13 for ordinary pairs)
+    sep_in = float(np.linalg.norm(np.asarray(b, float) - np.asarray(a, float)))
+    coord_in = float(max(np.max(np.abs(a)), np.max(np.abs(b)), np.max(np.abs(R @ np.asarray(a, float) + sh)), np.max(np.abs(R @ np.asarray(b, float) + sh))))
+    cond_in = 16 * 2.220446049250313e-16 * coord_in / max(sep_in, 1e-300)
+    gtol += cond_in
 
     def dir_tol(p):
         """Inside the declared beta_tolerance window a gradient-index path is treated as exactly vertical: the reported
         direction is then arbitrary within beta_tolerance / n."""
         if fam in ("uniform", "layered-uniform"):
-            return 1e-7
+            # the direction of a straight leg is taken from its end points, which are known to eps * |coordinates|: a leg of a few
+            # nanometres (receiver a hair below a boundary) has a direction known to eps * |coordinates| / its length only
+            legs_ = [float(sp.path_length) for sp in getattr(p, "paths", [])]
+            # (junction points come from a launch angle solved to ~1e-12 rad, i.e. they are known to 1e-12 of the path length as well)
+            return 1e-7 + cond_in + ((64 * 2.220446049250313e-16 * coord_in + 1e-12 * float(p.path_length)) / max(min(legs_), 1e-300) if legs_ else 0.0)
         em = np.asarray(p.emitted_direction, float)
         rd = np.asarray(p.received_direction, float)
         nsrc, nrec = float(ice.index(float(a[2]))), float(ice.index(float(b[2])))
@@ -289,7 +341,7 @@ def run_case(case):
         n_min = min(nsrc, nrec)
         for lay_ in getattr(ice, "layers", [ice]):
             n_min = min(n_min, float(lay_.index(float(lay_.valid_range[1]))))
-        base = 1e-5 if fam == "layered-exp" else 1e-7
+        base = (1e-5 if fam == "layered-exp" else 1e-7) + cond_in
         if fam == "layered-exp":
             # conditioning: the direction of a straight leg is taken from its end points, so the junction positions' own
             # agreement (measured <= 2e-6 of the path length) is divided by the length of the shortest leg
@@ -309,43 +361,6 @@ def run_case(case):
         v.close("translated/rotated: horizontal direction components move with the geometry, vertical ones unchanged",
                 max(float(np.max(np.abs(R @ p.emitted_direction - w.emitted_direction))), float(np.max(np.abs(R @ p.received_direction - w.received_direction)))), dir_tol(p), **det)
         v.close("translated/rotated: equal attenuation", float(np.max(np.abs(att(p) - att(w)))), 1e-6, **det)
-    # ---- mechanism observable (kf_layered_noise_arc_leg): a multi-leg layered solution whose end leg is an arc inside a gradient
-    # layer that starts and ends at the same depth (endpoint on an inner boundary).  For a launch at elevation phi << 1 from the
-    # horizontal the arc's horizontal extent is 2 n phi / |dn/dz| to first order (valid while its height n phi^2 / (2 |dn/dz|) is
-    # small against the profile's scale 1/a).  A reported extent off by more than a factor two from that is not an arc of the
-    # profile at all.  Such solutions are reported under their own clause and set aside, the remaining ones are compared strictly.
-    def noise_arc_leg(p):
-        legs_ = list(getattr(p, "paths", []))
-        if len(legs_) < 2:
-            return None
-        for sp, dvec in ((legs_[0], p.emitted_direction), (legs_[-1], p.received_direction)):
-            f_, t_ = np.asarray(sp.from_point, float), np.asarray(sp.to_point, float)
-            li = getattr(sp, "ice", None)
-            if hasattr(sp, "_points") or f_[2] != t_[2] or not all(hasattr(li, x_) for x_ in ("k", "a", "index")):
-                continue
-            phi = abs(float(np.asarray(dvec, float)[2]))
-            n_ = float(li.index(float(f_[2])))
-            dn_ = abs(float(li.k) * float(li.a) * float(np.exp(float(li.a) * float(f_[2]))))
-            if phi > 1e-3 or dn_ <= 0 or float(li.a) * n_ * phi * phi / (2 * dn_) > 0.1:
-                continue
-            true_extent = 2 * n_ * phi / dn_
-            reported = float(np.hypot(*(t_ - f_)[:2]))
-            if not (0.5 * true_extent <= reported <= 2 * true_extent):
-                return {"elevation_rad": phi, "reported_extent_m": reported, "first_order_extent_m": float(true_extent), "depth": float(f_[2]), "L": float(p.path_length)}
-        return None
-
-    if str(fam).startswith("layered"):
-        e1 = {i: noise_arc_leg(p) for i, p in enumerate(s1)}
-        e2 = {i: noise_arc_leg(p) for i, p in enumerate(s2)}
-        e1 = {i: o for i, o in e1.items() if o}
-        e2 = {i: o for i, o in e2.items() if o}
-        if e1 or e2:
-            v.check(False, "the end leg of a layered solution is an arc of its layer's profile",
-                    forward=list(e1.values()), swapped=list(e2.values()), arc_extent_off_by_more_than_a_factor_two=True, **geo)
-            s1 = [p for i, p in enumerate(s1) if i not in e1]
-            s2 = [p for i, p in enumerate(s2) if i not in e2]
-            if not v.check(len(s1) == len(s2), "swapping / moving the endpoints keeps the number of solutions", n=[len(s1), len(s2)], noise_arc_solutions_set_aside=[len(e1), len(e2)], **geo):
-                return v.result(decided=True, nontrivial=False, sample=sample)
     # ---- reciprocity: match solutions by path length (the order of reflected families may differ under a swap)
     used = set()
     for j, p in enumerate(s1):
